@@ -291,7 +291,7 @@ def job_b(case):
 
 def run(tier, seed, rep):
     grid = [(1, 0), (1, 1), (1, 2), (1, 3), (2, 1), (0.5, 2)] if tier == 'thorough' else [(1, 1), (1, 2), (2, 1)]
-    depth = 3 if tier == 'thorough' else 2
+    depth = 8 if tier == 'thorough' else 4
     jobs = [(dict(transport=tr, ka=ka, T=T, R=R), depth)
             for tr in ('udp', 'tcp') for ka in (False, True) for (T, R) in grid]
     total = Stats()
